@@ -2,7 +2,7 @@
    implementation's observations (library written to disk, loaded by liwe::fs::new_for_path,
    served by iwes::router::server::Server), the correspondence model = observed, and the
    property predicates evaluated on the observations. *)
-From IweV Require Import Str RelPath Arena Url Harness.
+From IweV Require Import Str RelPath Arena Url LinkPaths Harness.
 Local Open Scope string_scope.
 Local Open Scope list_scope.
 Local Open Scope N_scope.
@@ -32,7 +32,29 @@ Record note := Note {
   o_open : option string        (* that URI's to_file_path() *)
 }.
 
+(* --- the third leg: the note other notes reach by linking to <path> ----------------- *)
+
+(* what `textDocument/definition` answered *)
+Inductive def_obs := DPanic | DNone | DSome (uri : string).
+
+Record lfile := LFile {
+  f_comps : list string;             (* directories ++ [stem] of a note file of the library on disk *)
+  f_uri : option string;             (* Url::from_file_path(<file>).to_string() *)
+  f_refs : option (list string);     (* `textDocument/references` of that URI: the URIs listed (None: panic) *)
+  f_refs2 : option (list string)     (* the same after a didChange for every file *)
+}.
+
+Record link := Link {
+  l_from : nat;                      (* index of the linking file *)
+  l_url : string;                    (* the url of the link as the Markdown parser reads it *)
+  l_inline : bool;                   (* inside a sentence (true) / a paragraph of its own (false) *)
+  l_def : def_obs;                   (* `textDocument/definition` on the link *)
+  l_def2 : def_obs                   (* the same after a didChange for every file *)
+}.
+
 Inductive case :=
+| Links (base : string) (files : list lfile) (links : list link)
+        (o_loaded : option (list string))      (* keys of new_for_path (None: it panicked) *)
 | Skip                                          (* input not usable as file names: nothing ran *)
 | Crash (base : string)                         (* Server::new panicked *)
 | Case (base : string)                          (* library path as given to loader and server *)
@@ -81,11 +103,121 @@ Definition denoted_key (base u : string) : option string :=
 Definition explains (k : N) : list N :=
   match k with
   | 1 => [1; 2] | 2 => [3] | 3 => [1; 2; 3] | 4 => [1; 2] | 6 => [4] | 7 => [4] | 8 => [4]
+  | 9 => [5] | 10 => [6]
   | _ => []
   end.
 
-Definition run_with (v : variant) (c : case) : verdict :=
+(* --- link cases -------------------------------------------------------------------- *)
+
+Definition def_eqb (a b : def_obs) : bool :=
+  match a, b with
+  | DPanic, DPanic => true | DNone, DNone => true | DSome x, DSome y => seqb x y | _, _ => false
+  end.
+
+Definition find_file (files : list lfile) (t : list string) : option lfile :=
+  find (fun f => list_eqb seqb (f_comps f) t) files.
+
+(* the note file a link occurrence names: resolved from the directory of the linking FILE
+   (LinkPaths.link_target), then looked up among the files on disk *)
+Definition link_file (files : list lfile) (l : link) : option lfile :=
+  match nth_error files (l_from l) with
+  | Some f => match link_target (f_comps f) (l_url l) with Some t => find_file files t | None => None end
+  | None => None
+  end.
+
+(* go-to-definition on a link to a note file answers that file's URI; on any other link it does
+   not answer the URI of a note file *)
+Definition def_ok (files : list lfile) (l : link) (d : def_obs) : bool :=
+  match link_file files l with
+  | Some g => match d, f_uri g with DSome u, Some u' => seqb u u' | _, _ => false end
+  | None => match d with DSome u => negb (existsb (fun f => oeqb (f_uri f) (Some u)) files) | _ => true end
+  end.
+
+(* URIs of the files holding a link that names the file g *)
+Definition linkers (files : list lfile) (links : list link) (g : lfile) : list string :=
+  flat_map (fun l => match link_file files l, nth_error files (l_from l) with
+                     | Some t, Some f =>
+                         if list_eqb seqb (f_comps t) (f_comps g)
+                         then match f_uri f with Some u => [u] | None => [] end else []
+                     | _, _ => []
+                     end) links.
+Definition refs_ok (files : list lfile) (links : list link) (g : lfile) (r : option (list string)) : bool :=
+  match r with Some us => set_eqb seqb us (linkers files links g) | None => false end.
+
+(* model of handle_goto_definition (server.rs:244-272): url_to_key(uri).parent(), RelativePath::join,
+   BasePath::relative_to_full_path *)
+Definition m_definition (v dv : variant) (base furi url : string) : res (option string) :=
+  let parent := key_parent (m_url_to_key v base furi) in
+  match dv with
+  | AsFound => relative_to_full_path_as_found (server_prefix base) (rjoin parent url)
+  (* fix-c14-definition-uri.patch: Key::from_rel_link_url(url, parent).to_full_url(base_path) *)
+  | Fixed => m_key_to_url v base (from_rel_link_url url parent)
+  end.
+Definition def_corr (v dv : variant) (base : string) (files : list lfile) (l : link) (d : def_obs) : bool :=
+  match nth_error files (l_from l) with
+  | Some f =>
+      match f_uri f with
+      | Some u =>
+          match m_definition v dv base u (l_url l) with
+          | Ok (Some t) => def_eqb d (DSome t)
+          | Ok None => true                        (* a URL outside the modelled part of the crate *)
+          | Panic _ => def_eqb d DPanic
+          end
+      | None => true
+      end
+  | None => false
+  end.
+
+(* K9: relative_to_full_path still hands text to Url::parse / Url::join (the repair of key_to_url did
+   not reach it): a library path that is not its own URL text or has a trailing slash, or a note link
+   whose path from the root is re-read by Url::join (also a link to no note: `[x](a%20b)` names the
+   missing file `a%20b.md` and is answered with the URI of `a b.md`) *)
+Definition def_text_join (base : string) (files : list lfile) (links : list link) : bool :=
+  base_unsafe base || base_trailing_slash base ||
+  existsb (fun l => match is_ref_url (l_url l), nth_error files (l_from l) with
+                    | true, Some f =>
+                        let rel := strip_md (rjoin (file_key (dir_of (f_comps f))) (l_url l)) in
+                        (* … or holds a drive-letter-like directory name (`C|`, `a:`), which Url::join's `..` does not leave *)
+                        join_reinterprets_key rel || existsb drive_letter (split_on SEP rel)
+                    | _, _ => false end) links.
+(* K10: an inline link is keyed by its url as written (GraphInline::ref_key), not by the note it
+   names from the linking file's directory *)
+Definition inline_keyed_raw (files : list lfile) (links : list link) : bool :=
+  existsb (fun l => l_inline l && is_ref_url (l_url l) &&
+                    match nth_error files (l_from l) with
+                    | Some f => negb (oeqb (Some (strip_md (l_url l)))
+                                           (match link_target (f_comps f) (l_url l) with Some t => Some (file_key t) | None => None end))
+                    | None => false end) links.
+
+(* Which go-to-definition the tree under test has: [AsFound] = /repo HEAD (relative_to_full_path joins
+   text onto a URL); [Fixed] once fix-c14-definition-uri.patch is applied (VERIF_C14_DEF=fixed tries it
+   without editing). *)
+Definition def_variant : variant := AsFound.
+
+Definition run_links (v dv : variant) (base : string) (files : list lfile) (links : list link)
+                     (o_loaded : option (list string)) : verdict :=
+  let mkeys := map (fun f => disk_key (f_comps f)) (filter (fun f => loaded (f_comps f)) files) in
+  let corr :=
+    flag 1 (forallb (fun f => oeqb (file_uri (note_path base (f_comps f))) (f_uri f)) files) ++
+    flag 2 (match o_loaded with Some l => set_eqb seqb l mkeys && nodup_b l | None => false end) ++
+    (* 10: the URI go-to-definition answers *)
+    flag 10 (forallb (fun l => def_corr v dv base files l (l_def l) && def_corr v dv base files l (l_def2 l)) links) in
+  let prop :=
+    (* 5: go-to-definition on a link reaches the file the link names from the linking file's directory *)
+    flag 5 (forallb (fun l => def_ok files l (l_def l) && def_ok files l (l_def2 l)) links) ++
+    (* 6: the references of a file's URI are the files that link to it *)
+    flag 6 (forallb (fun g => refs_ok files links g (f_refs g) && refs_ok files links g (f_refs2 g)) files) in
+  let cls := flag 9 (negb (def_text_join base files links)) ++ flag 10 (negb (inline_keyed_raw files links)) in
+  let explained := flat_map explains cls in
+  let cls := if forallb (fun p => existsb (N.eqb p) explained) prop then cls else [] in
+  let nontriv := existsb (fun l => match link_file files l, nth_error files (l_from l) with
+                                   | Some _, Some f => Nat.ltb 1 (length (f_comps f))
+                                   | _, _ => false end) links in
+  V corr prop cls nontriv.
+
+Definition run_with2 (v dv : variant) (c : case) : verdict :=
   match c with
+  | Links base files links o_loaded => run_links v dv base files links o_loaded
   | Skip => V [] [] [] false
   | Crash _ => V [9] [1] [] false
   | Case base notes o_loaded o_before o_edited o_after o_extra =>
@@ -176,5 +308,7 @@ Definition run_with (v : variant) (c : case) : verdict :=
       V corr prop cls nontriv
   end.
 
+Definition run_with (v : variant) (c : case) : verdict := run_with2 v def_variant c.
 Definition run (c : case) : verdict := run_with tree_variant c.
 Definition run_fixed (c : case) : verdict := run_with Fixed c.
+Definition run_def_fixed (c : case) : verdict := run_with2 tree_variant Fixed c.
